@@ -46,6 +46,9 @@ pub enum Op {
   // ---- higher order (direct form only in last position; Flat = .flat_map(|w| w))
   Window(usize),
   GroupByParity,
+  /// `defer(|| src.window_with_count(k))` / `defer(|| src.group_by(..))`: same reference as the plain operator
+  WindowDeferred(usize),
+  GroupByParityDeferred,
   WindowFlat(usize),
   GroupByParityFlat,
   // ---- recovery
@@ -115,8 +118,8 @@ impl Op {
       Op::Buffer(_) => "buffer_with_count",
       Op::Materialize => "materialize",
       Op::MatDemat | Op::DematInBand(..) => "dematerialize",
-      Op::Window(_) | Op::WindowFlat(_) => "window_with_count",
-      Op::GroupByParity | Op::GroupByParityFlat => "group_by",
+      Op::Window(_) | Op::WindowFlat(_) | Op::WindowDeferred(_) => "window_with_count",
+      Op::GroupByParity | Op::GroupByParityFlat | Op::GroupByParityDeferred => "group_by",
       Op::Retry(_) => "retry",
       Op::RetryWhen(_) => "retry_when",
       Op::OnErrorResumeNext(_) => "on_error_resume_next",
@@ -143,13 +146,13 @@ impl Op {
   }
   pub fn show(&self) -> String {
     match self {
-      Op::Window(_) | Op::GroupByParity => format!("{:?}", self).to_lowercase(),
+      Op::Window(_) | Op::GroupByParity | Op::WindowDeferred(_) | Op::GroupByParityDeferred => format!("{:?}", self).to_lowercase(),
       _ => format!("{:?}", self),
     }
   }
   /// delivers inner observables: usable in last position only
   pub fn higher_order(&self) -> bool {
-    matches!(self, Op::Window(_) | Op::GroupByParity)
+    matches!(self, Op::Window(_) | Op::GroupByParity | Op::WindowDeferred(_) | Op::GroupByParityDeferred)
   }
   pub fn has_functional_reference(&self) -> bool {
     !matches!(self, Op::TimeInterval | Op::SwitchOnNext)
@@ -268,6 +271,8 @@ pub struct Env {
   pub toks: Tokens,
   /// side-effect log of `tap` (subscription-independent, C14)
   pub tap_log: Arc<Mutex<Vec<Ev>>>,
+  /// one-shot action run from inside tap's next side effect (user code of an operator re-entering the library)
+  pub tap_hook: Arc<Mutex<Option<Box<dyn FnOnce() + Send>>>>,
 }
 
 fn resume_obs(r: Resume, e: &RxError) -> Observable<'static, V> {
@@ -357,10 +362,15 @@ pub fn build_typed(n: &Node, env: &Env) -> Built {
     Op::Tap => {
       let (l1, l2, l3) = (env.tap_log.clone(), env.tap_log.clone(), env.tap_log.clone());
       let (t1, t2, t3) = (t.clone(), t.clone(), t);
+      let hook = env.tap_hook.clone();
       Built::V(src.tap(
         move |x: V| {
           let _ = &t1;
-          l1.lock().unwrap().push(Ev::N(x.d.clone()))
+          l1.lock().unwrap().push(Ev::N(x.d.clone()));
+          let f = hook.lock().unwrap().take();
+          if let Some(f) = f {
+            f();
+          }
         },
         move |e| {
           let _ = &t2;
@@ -441,6 +451,20 @@ pub fn build_typed(n: &Node, env: &Env) -> Built {
       )
     }
     Op::Window(k) => Built::Nested(src.window_with_count(*k)),
+    Op::WindowDeferred(k) => {
+      let k = *k;
+      Built::Nested(observables::defer(move || {
+        let _ = &t;
+        src.window_with_count(k)
+      }))
+    }
+    Op::GroupByParityDeferred => Built::Nested(observables::defer(move || {
+      let t = t.clone();
+      src.group_by(move |x: V| {
+        let _ = &t;
+        x.d.i().rem_euclid(2)
+      })
+    })),
     Op::WindowFlat(k) => Built::V(src.window_with_count(*k).flat_map(|w| w)),
     Op::GroupByParity => Built::Nested(src.group_by(move |x: V| {
       let _ = &t;
